@@ -329,7 +329,7 @@ func (aw *authWorld) buildAuth(chName string, route int, acc *Account, modes []S
 // aclTermFor renders what the scripted ACL answers for the key list this request presents.
 func aclTermFor(aw *authWorld, in *Interner, ac *authCase, argc int, mode string) (string, bool, *Account) {
 	switch mode {
-	case "status", "empty", "garbled":
+	case "status", "empty", "garbled", "refused_with_record":
 		return "AclFail", false, nil
 	}
 	expected := argc - 1 + 4
@@ -373,7 +373,7 @@ func (aw *authWorld) setACL(mode string, acc *Account) {
 	a.KeyTypes = "match"
 	acc.Black, acc.Grey = false, false
 	switch mode {
-	case "status", "empty", "garbled":
+	case "status", "empty", "garbled", "refused_with_record":
 		a.Fault["checkKeys"] = mode
 	case "black":
 		acc.Black = true
@@ -418,7 +418,7 @@ func (aw *authWorld) emit(c *Ctx, ac *authCase, aclMode string, argc int) {
 
 func genC01(c *Ctx) error {
 	c.ShardSize = 150
-	c.Notes["rule"] = "every request is a real signed invocation of a sender-requiring method on one of the four routes (batched submission, task, immediate NBTx, query with sender). Exhaustive part: 3 key types x signer sets of 1..3 keys x policy n in 0..size+1 (0 = the answer carries no policy, size+1 = a policy larger than the key list) x every assignment of {valid, blank, corrupted, foreign-key, other-message, earlier request's, valid-with-extra-bytes} to the signature positions, on rotating routes; half of the accounts have an access-control answer carrying changed-key transactions (which the chaincode records for an authenticated request); plus ACL answers {ok, status 500, empty, garbled, black, grey, key-type list short/long/absent} x key types x routes, argument-count variants, garbage signature strings, bad nonces. A member's key repeated in the presented list. Fifth route: the exported core.CheckSign with requests in the older format (every key must sign, ed25519 only). Non-trivial: rejected, or multi-signature."
+	c.Notes["rule"] = "every request is a real signed invocation of a sender-requiring method on one of the four routes (batched submission, task, immediate NBTx, query with sender). Exhaustive part: 3 key types x signer sets of 1..3 keys x policy n in 0..size+1 (0 = the answer carries no policy, size+1 = a policy larger than the key list) x every assignment of {valid, blank, corrupted, foreign-key, other-message, earlier request's, valid-with-extra-bytes} to the signature positions, on rotating routes; half of the accounts have an access-control answer carrying changed-key transactions (which the chaincode records for an authenticated request); plus ACL answers {ok, status 500, empty, garbled, status 403 with the account record attached, black, grey, key-type list short/long/absent} x key types x routes, argument-count variants, garbage signature strings, bad nonces. A member's key repeated in the presented list. Fifth route: the exported core.CheckSign with requests in the older format (every key must sign, ed25519 only). Non-trivial: rejected, or multi-signature."
 	aw, err := newAuthWorld()
 	if err != nil {
 		return err
@@ -476,7 +476,7 @@ func genC01(c *Ctx) error {
 			if size == 2 {
 				acc.SignedTx = []string{"chg2"}
 			}
-			for _, mode := range []string{"ok", "status", "empty", "garbled", "black", "grey", "kt_short", "kt_long", "kt_none"} {
+			for _, mode := range []string{"ok", "status", "empty", "garbled", "refused_with_record", "black", "grey", "kt_short", "kt_long", "kt_none"} {
 				for r := 0; r < 4; r++ {
 					ac := aw.buildAuth("tt", r, acc, nil, mode)
 					aw.emit(c, ac, mode, 2)
@@ -672,7 +672,7 @@ func (aw *authWorld) checkSignCase(c *Ctx, acc *Account, modes []SigMode, aclMod
 	// what the scripted service answers for this key list
 	aclTerm, aclOK := "AclFail", false
 	switch aclMode {
-	case "status", "empty", "garbled":
+	case "status", "empty", "garbled", "refused_with_record":
 	default:
 		var kts []string
 		switch aclMode {
